@@ -1298,6 +1298,10 @@ class Interp(object):
         if isinstance(callee, Top):
             if callee.kind.startswith('import:'):
                 return self.imported_call(callee.kind[7:], args, kwargs, node, frame)
+            if callee.kind.startswith('name:') and callee.kind[5:] in ('list', 'dict', 'tuple', 'set', 'frozenset', 'int', 'str', 'bytes', 'float', 'bool', 'len',
+                                                                       'sorted', 'min', 'max', 'sum', 'abs', 'next', 'iter', 'range', 'enumerate', 'zip', 'repr'):
+                # a builtin that travelled as a value (a parameter `container_type=list`, say) and is called
+                return self.builtin(callee.kind[5:], args, kwargs, node, frame)
             self.path.unknown.append(text)
             return Top('call')
         self.path.unknown.append(text)
